@@ -162,7 +162,8 @@ def one_sender_case(rng, kind, big, pattern=None, level=0, styles=("rand", "text
     addr = rng.randrange(1, 1000)
     ops = ["S:0:%d:%d:%d:%d:%d" % (addr, mtu, magic, rng.choice([0, 0, 7]), level)]
     if rng.random() < 0.2:
-        ops.append("I:0:%d" % rng.choice([NOLIM, NOLIM - 1, NOLIM - 2, 16777215, 16777214, rng.randrange(1 << 32)]))
+        ops.append("I:0:%d" % (rng.choice([NOLIM, NOLIM - 1, NOLIM - 2, 16777215, 16777214, rng.randrange(1 << 32)]) if kind == "P"
+                               else rng.choice([16777215, 16777214, 16777213, rng.randrange(1 << 24)])))
     sizes = []
     npk_seen = 0
     body = []
@@ -195,7 +196,8 @@ def perfect_case(rng, kind, big, nsend=1, rmax=NOLIM, level=0):
     for i in range(nsend):
         ops.append("S:%d:%d:%d:%d:%d:%d" % (i, addrs[i], mtu, magic, rng.choice([0, 0, 9]), level))
         if rng.random() < 0.3:
-            ops.append("I:%d:%d" % (i, rng.choice([NOLIM, NOLIM - 1, 16777215, rng.randrange(1 << 32)])))
+            ops.append("I:%d:%d" % (i, rng.choice([NOLIM, NOLIM - 1, 16777215, rng.randrange(1 << 32)]) if kind == "P"
+                                    else rng.choice([16777215, 16777214, rng.randrange(1 << 24)])))
     pool = size_choices(rng, kind, m, mode, big)
     if rmax != NOLIM:
         pool = pool + [rmax, rmax + 1, max(1, rmax - 1), rmax + m, 2 * rmax + 1]
